@@ -22,6 +22,7 @@ def run_case(ci):
     n, m = c['n'], c['m']
     rec = MREC[(n, m, c['kind'])]
     x0 = np.array(multi.X0[:n])
+    x0.flags.writeable = False                  # the caller's x is never written to
     comps = [multi.comp_fun(ds, list(x0)) for ds in rec['comps']]
     evals = []
 
